@@ -239,3 +239,27 @@ def scheduled_task(t):
   if OUTCOMES.get((t, k), 'ok') == 'error':
     raise RuntimeError(f'application error in task {t}')      # non-retriable
   return 100 + t
+
+
+class RunningMax(agg_base.AggregateFn):
+  """Aggregate whose state is a bare number: the running maximum of 3 - b over the rows it was fed (so 0 and negative
+  values occur; the initial state is -inf).  A state that happens to be 0 is still a state."""
+
+  def create_state(self):
+    return float('-inf')
+
+  def update_state(self, state, *inputs):
+    vals = [3 - int(x) for x in inputs[0]]
+    return max([state] + vals)
+
+  def merge_states(self, states):
+    return max(states)
+
+  def get_result(self, state):
+    return state
+
+  def __eq__(self, other):
+    return isinstance(other, RunningMax)
+
+  def __hash__(self):
+    return hash('RunningMax')
